@@ -32,6 +32,7 @@ int_val_f = z3.Function('int_val', S, I)
 lower_f = z3.Function('str_lower', S, S)
 glob_f = z3.Function('fnmatchcase', S, S, B)
 str_of_f = z3.Function('str_of_opaque', I, S)
+int_str_f = z3.Function('str_of_int', I, S)   # str(i): decimal digits; kept uninterpreted (injectivity not assumed)
 strftime_f = z3.Function('strftime', S, I, S)         # (fmt, date_us)
 strptime_ok_f = z3.Function('strptime_ok', S, S, B)   # (fmt, text)
 strptime_val_f = z3.Function('strptime_val', S, S, I)
@@ -136,6 +137,38 @@ def nonempty(ctx, t):
         if l:
             return True
         if l is None and p.get_id() in ctx.notes.get('nonempty', ()):
+            return True
+    return False
+
+
+def mark_digits(ctx, t):
+    """t is a non-empty string of decimal digits (caller has assumed it)"""
+    ctx.notes.setdefault('digits', set()).add(t.get_id())
+    mark_noslash(ctx, t)
+    mark_nonempty(ctx, t)
+
+
+def definitely_different(ctx, a, b):
+    """cheap structural test: True only if a != b for sure (first or last
+    characters differ by construction)"""
+    pa, pb = pieces(a), pieces(b)
+    if not pa or not pb:
+        return (nonempty(ctx, a) if not pb else nonempty(ctx, b)) \
+            if (not pa) != (not pb) else False
+    la, lb = lit(pa[-1]), lit(pb[-1])
+    dig = ctx.notes.get('digits', ())
+    if la is not None and lb is not None:
+        n = min(len(la), len(lb))
+        if la[-n:] != lb[-n:]:
+            return True
+    if la is not None and pb[-1].get_id() in dig and not la[-1].isdigit():
+        return True
+    if lb is not None and pa[-1].get_id() in dig and not lb[-1].isdigit():
+        return True
+    fa, fb = lit(pa[0]), lit(pb[0])
+    if fa is not None and fb is not None:
+        n = min(len(fa), len(fb))
+        if fa[:n] != fb[:n]:
             return True
     return False
 
@@ -349,9 +382,15 @@ _BAD = z3.Union(
 
 
 def clean_path(p):
-    """syntactic sufficient condition for normpath(p) == p"""
-    return z3.And(p != EMPTY,
-                  z3.Or(p == SLASH, z3.Not(z3.InRe(p, _BAD))))
+    """syntactic sufficient condition for normpath(p) == p: non-empty, and
+    either '/' or: no '//', no trailing '/', no '.' or '..' component"""
+    sv = z3.StringVal
+    bad = z3.Or(z3.Contains(p, sv('//')), z3.SuffixOf(SLASH, p),
+                p == sv('.'), p == sv('..'),
+                z3.PrefixOf(sv('./'), p), z3.PrefixOf(sv('../'), p),
+                z3.SuffixOf(sv('/.'), p), z3.SuffixOf(sv('/..'), p),
+                z3.Contains(p, sv('/./')), z3.Contains(p, sv('/../')))
+    return z3.And(p != EMPTY, z3.Or(p == SLASH, z3.Not(bad)))
 
 
 def normpath(ctx, p):
@@ -398,8 +437,15 @@ def normpath(ctx, p):
 
 
 def is_abs_clean(p):
-    """absolute, normalised: what abspath/realpath return"""
-    return z3.And(z3.PrefixOf(SLASH, p), clean_path(p))
+    """absolute, normalised: what abspath/realpath return ('//x' keeps its
+    two leading slashes, POSIX)"""
+    sv = z3.StringVal
+    rest = z3.SubString(p, 1, z3.Length(p) - 1)
+    bad = z3.Or(z3.Contains(rest, sv('//')), z3.SuffixOf(SLASH, p),
+                z3.SuffixOf(sv('/.'), p), z3.SuffixOf(sv('/..'), p),
+                z3.Contains(p, sv('/./')), z3.Contains(p, sv('/../')))
+    return z3.And(z3.PrefixOf(SLASH, p),
+                  z3.Or(p == SLASH, p == sv('//'), z3.Not(bad)))
 
 
 def abspath(ctx, p):
@@ -409,7 +455,8 @@ def abspath(ctx, p):
         ctx.notes[key] = True
         ctx.used_axioms.add('os.path.abspath axioms')
         ctx.assume(is_abs_clean(r))
-        ctx.assume(z3.Implies(is_abs_clean(p), r == p))
+        ctx.assume(z3.Implies(z3.And(z3.PrefixOf(SLASH, p), clean_path(p)),
+                              r == p))
     return r
 
 
